@@ -253,6 +253,12 @@ func (fr *Frame) load(addr string, t types.Type) *Val {
 		rememberLeaf(l)
 		a := add(addr, intLit(int64(l.Slot)))
 		v.L = append(v.L, fr.vc.read(fr.st, l, a))
+		if fr.vc.taint && l.Key == "H_uint8" && fr.vc.specDepth == 0 {
+			// information flow: the program never looks at a secret byte directly
+			fr.vc.nsecret++
+			fr.vc.obligeNamed(fr, fmt.Sprintf("%s/secret-read/%d", shortFuncName(fr.fn.String()), fr.vc.nsecret), "secret-read",
+				not(fr.vc.read(fr.st, taintLeaf, a)), nil, "a byte of the credentials is read directly")
+		}
 	}
 	if mt, ok := t.Underlying().(*types.Map); ok {
 		v.Map = &SymMap{opaque: true, elemT: mt.Elem(), keyT: mt.Key()}
@@ -311,7 +317,22 @@ func (fr *Frame) storeVal(addr string, t types.Type, v *Val) {
 		a := add(addr, intLit(int64(l.Slot)))
 		fr.vc.logStore(l.Key, a, "")
 		fr.vc.setArr(fr.st, l, store(fr.vc.arr(fr.st, l), a, v.L[i]))
+		if fr.vc.taint && l.Key == "H_uint8" {
+			fr.vc.setArr(fr.st, taintLeaf, store(fr.vc.arr(fr.st, taintLeaf), a, tFalse))
+		}
 	}
+}
+
+var taintLeaf = Leaf{Sort: "Bool", Key: "G_taint", Kind: lkBool}
+
+// bulkLeaves: the leaves a bulk operation on elements of type t acts on; in
+// information-flow mode the taint of bytes moves with the bytes.
+func (fr *Frame) bulkLeaves(t types.Type) []Leaf {
+	ls := flatten(t)
+	if fr.vc.taint && len(ls) == 1 && ls[0].Key == "H_uint8" {
+		return append(append([]Leaf{}, ls...), taintLeaf)
+	}
+	return ls
 }
 
 // alloc reserves count (a term) values of type t and returns the address.
@@ -331,7 +352,7 @@ func (fr *Frame) zeroRange(t types.Type, base, count string) {
 	n := int64(slots(t))
 	if c, ok := parseIntLit(count); ok && c.IsInt64() && c.Int64()*n <= 8 {
 		for k := int64(0); k < c.Int64(); k++ {
-			for _, l := range flatten(t) {
+			for _, l := range fr.bulkLeaves(t) {
 				rememberLeaf(l)
 				a := add(base, intLit(k*n+int64(l.Slot)))
 				fr.vc.logStore(l.Key, a, "")
@@ -340,14 +361,14 @@ func (fr *Frame) zeroRange(t types.Type, base, count string) {
 		}
 		return
 	}
-	for _, l := range flatten(t) {
+	for _, l := range fr.bulkLeaves(t) {
 		fr.vc.logStore(l.Key, base, mul(count, intLit(n)))
 	}
 	if fr.vc.w.unroll > 0 {
 		// replay aid: sizes are bounded and the bulk operation is expanded
 		fr.vc.assume(imp(fr.reach, le(count, intLit(replayBulk))))
 		for k := int64(0); k < replayBulk; k++ {
-			for _, l := range flatten(t) {
+			for _, l := range fr.bulkLeaves(t) {
 				rememberLeaf(l)
 				a := add(base, intLit(k*n+int64(l.Slot)))
 				cur := fr.vc.arr(fr.st, l)
@@ -358,7 +379,7 @@ func (fr *Frame) zeroRange(t types.Type, base, count string) {
 	}
 	hi := add(base, mul(count, intLit(n)))
 	done := map[string]bool{}
-	for _, l := range flatten(t) {
+	for _, l := range fr.bulkLeaves(t) {
 		if done[l.Key] {
 			continue
 		}
@@ -386,7 +407,7 @@ func (fr *Frame) copyRange(t types.Type, dst, src, count string) {
 		}
 		var ws []wr
 		for k := int64(0); k < c.Int64(); k++ {
-			for _, l := range flatten(t) {
+			for _, l := range fr.bulkLeaves(t) {
 				rememberLeaf(l)
 				off := intLit(k*n + int64(l.Slot))
 				ws = append(ws, wr{l, add(dst, off), fr.vc.read(fr.st, l, add(src, off))})
@@ -398,7 +419,7 @@ func (fr *Frame) copyRange(t types.Type, dst, src, count string) {
 		}
 		return
 	}
-	for _, l := range flatten(t) {
+	for _, l := range fr.bulkLeaves(t) {
 		fr.vc.logStore(l.Key, dst, mul(count, intLit(n)))
 	}
 	if fr.vc.w.unroll > 0 {
@@ -410,7 +431,7 @@ func (fr *Frame) copyRange(t types.Type, dst, src, count string) {
 		}
 		var ws []wr
 		for k := int64(0); k < replayBulk; k++ {
-			for _, l := range flatten(t) {
+			for _, l := range fr.bulkLeaves(t) {
 				rememberLeaf(l)
 				off := intLit(k*n + int64(l.Slot))
 				ws = append(ws, wr{l, add(dst, off), fr.vc.define("cp", l.Sort, fr.vc.read(fr.st, l, add(src, off))), k})
@@ -424,7 +445,7 @@ func (fr *Frame) copyRange(t types.Type, dst, src, count string) {
 	}
 	hi := add(dst, mul(count, intLit(n)))
 	done := map[string]bool{}
-	for _, l := range flatten(t) {
+	for _, l := range fr.bulkLeaves(t) {
 		if done[l.Key] {
 			continue
 		}
@@ -1124,6 +1145,17 @@ func (fr *Frame) execLoopCut(l *Loop, in []*Edge) map[*ssa.BasicBlock][]*Edge {
 	headVals := make([]*Val, len(phis))
 	for k, phi := range phis {
 		headVals[k] = fr.vals[phi]
+	}
+	// quantified hypotheses (preconditions, earlier invariants) are instantiated at the loop counters
+	if vc.specDepth == 0 {
+		for k, phi := range phis {
+			if lf, ok := numLeaf(phi.Type()); ok && lf.Kind == lkInt && headVals[k] != nil {
+				for _, h := range vc.hyps {
+					h(headVals[k].L[0])
+					h(add(headVals[k].L[0], "1"))
+				}
+			}
+		}
 	}
 	var variantAtHead []string
 	if lc != nil {
